@@ -2,6 +2,7 @@
 package c11
 
 import (
+	"Havoc/pkg/agent"
 	"encoding/base64"
 	"encoding/hex"
 	"encoding/json"
@@ -9,6 +10,7 @@ import (
 	"fmt"
 	"strings"
 	"time"
+	"verifmc/demonwire"
 
 	"Havoc/cmd/server"
 	"Havoc/pkg/handlers"
@@ -33,6 +35,7 @@ func digest(pw string) string {
 const (
 	idA = 0xa001
 	idB = 0xb002
+	idC = 0xc003
 )
 
 // tagOf reduces a package to what identifies the event for the oracle.
@@ -106,6 +109,15 @@ func newWorld() *world {
 	return w
 }
 
+func (w *world) hasAgent(id uint32) bool {
+	for _, a := range w.agents {
+		if a == id {
+			return true
+		}
+	}
+	return false
+}
+
 func (w *world) authed() []*cli {
 	var out []*cli
 	for _, id := range w.order {
@@ -135,6 +147,7 @@ func alphabet() []op {
 	return []op{
 		{"console", ""}, {"connect", "U"}, {"connect", "V"}, {"disconnect", "U"}, {"disconnect", "V"},
 		{"chat", "U"}, {"ladd", "n1"}, {"lrm", "n1"}, {"register", ""}, {"markdead", "A"}, {"lerr", "n1"}, {"ladd", "n2"}, {"checkin", ""},
+		{"pivot-register", ""},
 	}
 }
 
@@ -151,7 +164,11 @@ func (w *world) enabled() []int {
 				continue
 			}
 		case "register":
-			if len(w.agents) > 1 {
+			if w.active[idB] || w.hasAgent(idB) {
+				continue
+			}
+		case "pivot-register":
+			if w.hasAgent(idC) || !w.active[idA] {
 				continue
 			}
 		}
@@ -254,9 +271,26 @@ func (w *world) apply(o op) {
 		w.agents = append(w.agents, idB)
 		w.active[idB] = true
 		w.bcast(fmt.Sprintf("new:%08x", idB), "")
+	case "pivot-register":
+		// a new session behind A: A relays the registration of C in an SMB connect callback
+		b := &demonwire.W{}
+		b.I32(agent.DEMON_PIVOT_SMB_CONNECT).I32(1).Bytes(demonwire.Register(idC, seam.Key(3), seam.IV(3), demonwire.DefaultMeta(idC)))
+		w.ts.CheckIn(idA, 1, demonwire.Sub{Cmd: agent.COMMAND_PIVOT, Body: b.B})
+		w.agents = append(w.agents, idC)
+		w.active[idC] = true
+		// in the order the teamserver produces them: A's call-in notice, the one-shot new-session
+		// event of C, and a retained console line on A
+		w.bcast(fmt.Sprintf("callin:%08x", idA), "")
+		w.bcast(fmt.Sprintf("new:%08x", idC), "")
+		line := fmt.Sprintf("out:%08x:[SMB] Connected to pivot agent [%08x]-<>-<>-[%08x]", idA, idA, idC)
+		w.retained = append(w.retained, line)
+		w.bcast(line, "")
 	case "markdead":
 		dispatch(t, packager.Type.Session.Type, packager.Type.Session.MarkAsDead, map[string]any{"AgentID": fmt.Sprintf("%08x", idA), "Marked": "Dead"})
 		w.active[idA] = false
+		if w.hasAgent(idC) {
+			w.active[idC] = false // a session behind a dead one is unreachable: it is flagged with its parent
+		}
 		tag := fmt.Sprintf("mark:%08x:Dead", idA)
 		w.retained = append(w.retained, tag)
 		w.bcast(tag, "")
